@@ -13,7 +13,9 @@ the linkage test (prev Some & new Some => next_expected == new, prev Some & new 
 and receives the discovered new height; (4) the cached height is written only in
 commit_changes_with_height_update / rollback_last_block, after the backend call's ok-edge, with
 the committed height; (5) the metadata write is guarded by a new height being present and its
-changes are appended to the same single backend commit.
+changes are appended to the same single backend commit; (6) the heights_lookup closure of every regular-stage
+impl collects all keys / entries of its height table: no selecting adaptor (take, skip, filter, last, max, ...)
+stands between the iteration and the collected list, so a batch mixing several heights reaches the `len > 1` reject.
 """
 NOT_DECIDED = """Correctness of each heights_lookup closure's table choice; numeric equality of
 heights; behaviour of the backends themselves (C11/C12)."""
@@ -204,6 +206,28 @@ def check(ctx):
         nb = ctx.body_with(ctx.unit(f"{GDB}::new", impl_self="RegularStage"), "*latest_height_from_metadata*")
         ctx.expect_sites("5.reopen-reads-metadata", nb.calls_to("*latest_height_from_metadata*"), at_least=1,
                          what="Database::new initialises the cached height from metadata")
+
+    # ---- 6. the height collectors report every height found in the changes ------------------------
+    with ctx.clause("6.height-collectors-complete"):
+        DENY = {"take", "skip", "filter", "filter_map", "take_while", "skip_while", "step_by", "last", "next", "next_back", "nth", "nth_back",
+                "max", "min", "max_by", "min_by", "max_by_key", "min_by_key", "find", "find_map", "first", "truncate", "pop", "split_off",
+                "drain", "retain", "position"}
+        us = [u for u in F.units(f"<{GDB} as fuel_core_storage::transactional::Modifiable>::commit_changes", crate="fuel_core")
+              if "RegularStage" in (u.root.impl_self or "")]
+        ctx.expect_sites("6.regular-impls", [u.root.impl_self for u in us], at_least=5, what="impl Modifiable for Database<regular stage>")
+        for u in us:
+            tag = (u.root.impl_self or "").split("database_description::")[-1].split(",")[0].split(">")[0]
+            cl = [b for b in u.bodies if b is not u.root]
+            src = [c for b in cl for c in b.calls if c.bb in b.live and c.name in ("iter_all_keys", "iter_all", "iter_all_by_prefix", "iter_all_filtered")]
+            cut = [c for b in cl for c in b.calls if c.bb in b.live and c.name in DENY]
+            if not src:
+                # a description without height-bearing table (relayer built without its feature): constant empty list
+                ctx.add(f"6.{tag}-collector", "PROV", not cut, f"Database<{tag}>: heights_lookup iterates nothing and selects nothing", site_key=tag)
+                continue
+            ctx.add(f"6.{tag}-collector-keeps-every-height", "PROV", not cut and all(c.name in ("iter_all_keys", "iter_all") for c in src),
+                    f"Database<{tag}>: heights_lookup collects all keys/entries of its height table; no selecting adaptor between the iteration and the collected list"
+                    + (f" — found {[c.name + ' (' + c.where() + ')' for c in cut][:3]}: a batch mixing several heights would be reported as one and pass the `len > 1` reject" if cut else ""),
+                    sites=[c.where() for c in src + cut], site_key=tag)
 
 
 def _guard_atoms(ctx, b, bb, s):
